@@ -99,9 +99,17 @@ def operations(rng, sr, x, other, vec):
     ops.append(('tensordot_outer', lambda a: sr.tensordot(a, oc, axes=0, preserve_array=True)))
     if n == 2:
         ops.append(('matmul', lambda a: a @ oc.transpose()))
+        ops.append(('rmatmul', lambda a: oc.transpose() @ a))
+        ops.append(('rmatmul_conj', lambda a: a.conj().transpose() @ a))
         if x.indices[0].chargemap == x.indices[1].chargemap and x.indices[0].dual != x.indices[1].dual:
             ops.append(('trace', lambda a: a.trace()))
             ops.append(('einsum_trace', lambda a: a.einsum('aa->')))
+    if n == 1:
+        ops.append(('vec_matmul_right', lambda a: oc @ a))
+        ops.append(('vec_matmul_left', lambda a: a @ oc))
+    if x.blocks or True:
+        ops.append(('item_of_full_contraction', lambda a: complex(sr.tensordot(a, oc, axes=n, preserve_array=True, mode='blockwise').item())
+                    if sr.tensordot(a, oc, axes=n, preserve_array=True, mode='blockwise').blocks else 0j))
     # reductions / elementwise functions exported by the library
     for fn in ('sum', 'max', 'min'):
         ops.append((fn, (lambda f: (lambda a: np.asarray(getattr(a, f)()).item()))(fn)))
